@@ -208,7 +208,17 @@ def specLine (ss : Specs) (lhs rhs : String) : Except String Specs :=
   | verb :: n :: args =>
     let s := getS ss n
     match verb with
+    | "reserve_bulk" =>
+      -- the handles the iterator was asked for are reserved like any others; the rest of the claimed range
+      -- is not enumerated
+      match parseRhs rhs with
+      | some (.ents es, d) =>
+        match Spec.apply s (.reserveEntities es.length) (.ents es) d with
+        | .ok s' => .ok (setS ss n { s' with bulkOutstanding := true })
+        | .error m => .error m
+      | _ => .error "reserve_entities must return handles"
     | "obs" =>
+      if s.bulkOutstanding then .ok ss else
       match (field args "hs").bind entities? with
       | some hs =>
         let want := specObs s hs
@@ -432,6 +442,20 @@ def stepLineW (ws : Worlds) (lhs : String) : Except String (Worlds × String) :=
                   let (v', o) := v.spawn vals
                   .ok (setW (setW ws n w') into v', showOut o)
           | _, _ => .error "bad take"
+        -- the reservation calls refuse to go past the `u32` id space ("too many entities")
+        | "reserve_entity" =>
+          match w.reserveEntityChecked with
+          | some (w', e) => .ok (setW ws n w', showOut { res := .ent e })
+          | none => .ok (ws, "panic")
+        | "reserve_entities" | "reserve_bulk" =>
+          match (field args "n").bind (·.toNat?) with
+          | some cnt =>
+            -- `reserve_bulk`: the iterator is advanced `k` times only; the call claims all `n` ids
+            let k := if verb == "reserve_bulk" then ((field args "k").bind (·.toNat?)).getD 0 else cnt
+            match w.reserveEntitiesPrefix cnt k with
+            | some (w', es) => .ok (setW ws n w', showOut { res := .ents es })
+            | none => .ok (ws, "panic")
+          | none => .error s!"cannot parse: {lhs}"
         | _ =>
           match parseOp verb args with
           | none => .error s!"cannot parse: {lhs}"
